@@ -592,6 +592,10 @@ impl Machine {
             .read_term(&op_dir, Tokens::Default)
             .expect("Failed to parse query");
 
+        // NOTE: a ball left over from a previous query that ended with an
+        // exception must not be reported again by this query.
+        self.machine_st.ball.reset();
+
         self.allocate_stub_choice_point()
             .expect("failed to allocate stub choice point");
 
